@@ -55,7 +55,19 @@ fn observe<R: Read>(ctor: impl FnOnce() -> std::io::Result<R>, sizes: &[usize], 
         Ok(mut rd) => {
             let (out, err) = drive(&mut rd, sizes);
             match err {
-                None => format!("END {} {}", hex(&out), unconsumed(rd)),
+                None => {
+                    // after end of stream further reads return Ok(0) and leave the source alone (C16)
+                    let mut again = String::new();
+                    let mut buf = [0u8; 16];
+                    for i in 0..2 {
+                        match rd.read(&mut buf) {
+                            Ok(0) => {}
+                            Ok(n) => { again = format!(" AGAIN=read {} after the end returned {} bytes", i + 1, n); break }
+                            Err(e) => { again = format!(" AGAIN=read {} after the end failed with kind {}", i + 1, err_code(&e)); break }
+                        }
+                    }
+                    format!("END {} {}{}", hex(&out), unconsumed(rd), again)
+                }
                 Some(c) => {
                     // reading on after an error must stay total as well (checked by the oracle)
                     let mut buf = [0u8; 64];
@@ -149,6 +161,9 @@ fn oracle_tail(a: &[&str], obs: &str, prev: String) -> String {
 }
 
 fn oracle_no_panic(obs: &str) -> String {
+    if let Some(i) = obs.find(" AGAIN=") {
+        return format!("FAIL after end of stream: {}", &obs[i + 7..]);
+    }
     if READ_AFTER_ERROR_PANIC.with(|f| f.replace(false)) {
         return "FAIL read() after an error panics".into();
     }
